@@ -17,7 +17,7 @@ Delimit Scope Z_scope with CZ.
 Local Notation P := ZParr.
 Local Notation D := dflt_opts.
 """
-TARGETS = ["Bridge/BridgeClean.vo", "Props/P_C04.vo"]
+TARGETS = ["Bridge/BridgeClean.vo", "Gen/GenSource.vo", "Bridge/BridgeSrcC04.vo", "Props/P_C04.vo"]
 FUNCS = {"align_shape": "zalign_shapes {o}", "align_indeterminants": "zalign_indets",
          "align_exponents": "zalign_expons", "align_polynomials": "zalign_polys {o}"}
 
@@ -71,7 +71,8 @@ def run(report, tier, seed):
     except (clean_tr.TranslatorError, SyntaxError, OSError, KeyError) as exc:
         tr_ok = False
         report.notes.append(f"translator failed: {exc}")
-    ok = tr_ok and core.prove(report, TARGETS)
+    from harness.translators import source_tr
+    ok = tr_ok and core.prove_tied(report, TARGETS, [source_tr])
     rng = core.rng_for(seed, "C04")
     cc = core.CoqCases("C04", HEADER, shard=200)
     viol = []
